@@ -221,21 +221,17 @@ def run_one(ctx, case, q, good_args, fault, expect_fail):
             fake.destroy()
 
 
-_UPD = {}
-
-
 def updated_files(q, good_args):
-    """bytes of every file after the fault-free update (computed once per project by running it in a scratch copy)"""
-    key = id(q)
-    if key not in _UPD:
-        _UPD.clear()
+    """bytes of every file after the fault-free update (computed once per project by running it in a scratch copy;
+    cached on the project object itself - an id()-keyed cache can hand out another project's files)"""
+    if not hasattr(q, "_updated_files"):
         d = harness.new_project(q.encoded())
         try:
             r = harness.invoke(list(good_args), cwd=d, env={"PATH": "/nonexistent"})
-            _UPD[key] = harness.snapshot(d) if r.exit_code == 0 else None
+            q._updated_files = harness.snapshot(d) if r.exit_code == 0 else None
         finally:
             harness.rm_dir(d)
-    return _UPD[key]
+    return q._updated_files
 
 
 def desc(q, fault, res):
